@@ -73,6 +73,11 @@ func VerifNewLoop(h EventHandler, opts ...Option) (*VerifLoop, error) {
 	return &VerifLoop{eng, el}, nil
 }
 
+// SetWriteBufferCap overrides the static size of the outbound buffers of connections opened from
+// now on (Run fixes it at MaxStreamBufferCap; a small value lets a harness reach the ring-to-list
+// spill with little data).
+func (v *VerifLoop) SetWriteBufferCap(n int) { v.eng.opts.WriteBufferCap = n }
+
 // Shutdown closes every connection and the poller.
 func (v *VerifLoop) Shutdown() {
 	for _, p := range EngineGlobal.ProxyPool {
